@@ -144,7 +144,8 @@ var c19RootFiles = []string{
 }
 
 var c19MITypes = []string{gen.TOpen2, gen.TOpen3, gen.TEditions, gen.THybrid, gen.TOpaque, gen.TLazyNode, gen.TMixedOpq, gen.TMixedOpen, gen.TExt2, gen.TManyOpaque,
-	"goproto.proto.test.TestRequired", "google.golang.org.Article", "google.protobuf.Struct", "goproto.proto.test.TestAllTypes.NestedMessage"}
+	"goproto.proto.test.TestRequired", "google.golang.org.Article", "google.protobuf.Struct", "goproto.proto.test.TestAllTypes.NestedMessage",
+	"goproto.proto.test.TestRequired", "goproto.proto.test.TestRequiredForeign", "goproto.proto.test.TestRequiredForeign", "goproto.proto.test.TestRequiredGroupFields", gen.TReqLazy}
 
 var c19InprocOps = []string{"file-proto", "msg-lookups", "msg-lookups", "enum-lookups", "field-targets", "field-targets", "options", "srcloc", "find-name", "dyn-roundtrip", "dyntypes-ext",
 	"mi-roundtrip", "mi-roundtrip", "mi-reflect", "mi-json", "mi-size", "mi-new", "mi-checkinit", "xi-use", "greg-find", "greg-register", "greg-range", "newfile"}
@@ -195,11 +196,31 @@ func (c19) Gen(r *sim.Rng, tier string) *scn.Scn {
 	for i := 0; i < nmi; i++ {
 		s.Objects = append(s.Objects, scn.Object{Type: "mi", Note: c19MITypes[r.Intn(len(c19MITypes))], Seed: r.U64()})
 	}
+	if r.Chance(1, 3) {
+		// a second, separate MessageInfo for the same type: both make first use of the same descriptor
+		last := s.Objects[len(s.Objects)-1]
+		s.Objects = append(s.Objects, scn.Object{Type: "mi", Note: last.Note, Seed: r.U64()})
+	}
+	if r.Chance(1, 3) {
+		// two or three separate MessageInfos of a type whose required-ness is only found by walking
+		// its submessages, plus the child: all make first use of the same descriptors
+		t := []string{"goproto.proto.test.TestRequiredForeign", gen.TReqLazy, "goproto.proto.test.TestRequiredGroupFields"}[r.Intn(3)]
+		for i, n := 0, r.Range(2, 3); i < n; i++ {
+			s.Objects = append(s.Objects, scn.Object{Type: "mi", Note: t, Seed: r.U64()})
+		}
+		s.P["checkinit_bias"] = 1
+	}
 	s.P["reverse"] = int64(r.Intn(2))
 	for c := 0; c < nc; c++ {
 		var ops []scn.Op
 		for i, n := 0, r.Range(1, 5); i < n; i++ {
-			ops = append(ops, scn.Op{Op: c19InprocOps[r.Intn(len(c19InprocOps))], Obj: r.Intn(len(s.Objects)), N: int64(r.Intn(1 << 20)), M: int64(r.Intn(1 << 20))})
+			op := scn.Op{Op: c19InprocOps[r.Intn(len(c19InprocOps))], Obj: r.Intn(len(s.Objects)), N: int64(r.Intn(1 << 20)), M: int64(r.Intn(1 << 20))}
+			if s.P["checkinit_bias"] == 1 && r.Chance(1, 2) {
+				// first use of one of the MessageInfos added last, through the initialization check
+				op.Op = []string{"mi-checkinit", "mi-checkinit", "mi-roundtrip"}[r.Intn(3)]
+				op.Obj = len(s.Objects) - 1 - r.Intn(2)
+			}
+			ops = append(ops, op)
 		}
 		ph.Clients = append(ph.Clients, ops)
 	}
@@ -484,7 +505,7 @@ func c19MsgOp(op string, newMsg func() proto.Message, wire []byte) sim.OpResult 
 	h := newHasher()
 	uo := proto.UnmarshalOptions{AllowPartial: true}
 	mo := proto.MarshalOptions{AllowPartial: true, Deterministic: true}
-	switch op {
+	switch strings.TrimPrefix(op, "mi:") {
 	case "roundtrip":
 		m := newMsg()
 		if err := uo.Unmarshal(wire, m); err != nil {
@@ -502,8 +523,12 @@ func c19MsgOp(op string, newMsg func() proto.Message, wire []byte) sim.OpResult 
 		// (Clone is exercised, but whether Clone(m) is Equal to m is not part of
 		// this property: it goes into the digest and is compared with the
 		// sequential run like everything else.)
-		if proto.Equal(proto.Clone(m), m) {
-			h.u(1)
+		// (not for fresh MessageInfos with fresh descriptors: Clone allocates through the
+		// generated type's own, global, MessageInfo, whose field descriptors are different objects)
+		if !strings.HasPrefix(op, "mi:") {
+			if proto.Equal(proto.Clone(m), m) {
+				h.u(1)
+			}
 		}
 	case "reflect":
 		m := newMsg()
@@ -564,6 +589,24 @@ func c19MsgOp(op string, newMsg func() proto.Message, wire []byte) sim.OpResult 
 		if err := proto.CheckInitialized(e); err != nil {
 			h.s(err.Error())
 		}
+		// every singular message field holding an empty child: required fields
+		// one level down must be reported
+		d := newMsg()
+		dm := d.ProtoReflect()
+		for i := 0; i < dm.Descriptor().Fields().Len(); i++ {
+			fd := dm.Descriptor().Fields().Get(i)
+			if fd.Message() != nil && !fd.IsList() && !fd.IsMap() && !fd.IsWeak() {
+				dm.Mutable(fd)
+			}
+		}
+		if err := proto.CheckInitialized(d); err != nil {
+			h.s(err.Error())
+		} else {
+			h.u(0x1417)
+		}
+		if _, err := proto.Marshal(d); err != nil {
+			h.u(0xe44)
+		}
 	}
 	return sim.OpResult{Digest: h.h}
 }
@@ -601,6 +644,13 @@ func (c19) Run(s *scn.Scn, x *sim.Exec) {
 		if o.Type == "file" {
 			roots = append(roots, o.Note)
 		}
+		if o.Type == "mi" {
+			// the fresh MessageInfo gets a fresh descriptor too (caches keyed by descriptor, such as
+			// needsInitCheck, are then first-used as well): its file joins the fresh file set
+			if mt, err := protoregistry.GlobalTypes.FindMessageByName(protoreflect.FullName(o.Note)); err == nil {
+				roots = append(roots, mt.Descriptor().ParentFile().Path())
+			}
+		}
 	}
 	if len(roots) == 0 {
 		roots = []string{c19RootFiles[0]}
@@ -628,7 +678,13 @@ func (c19) Run(s *scn.Scn, x *sim.Exec) {
 			if !ok {
 				continue
 			}
-			env.mis[i] = &impl.MessageInfo{GoReflectType: orig.GoReflectType, Desc: orig.Desc, Exporter: orig.Exporter, OneofWrappers: orig.OneofWrappers}
+			desc := orig.Desc
+			if fd, err := env.reg.FindDescriptorByName(orig.Desc.FullName()); err == nil {
+				if fmd, ok := fd.(protoreflect.MessageDescriptor); ok {
+					desc = fmd
+				}
+			}
+			env.mis[i] = &impl.MessageInfo{GoReflectType: orig.GoReflectType, Desc: desc, Exporter: orig.Exporter, OneofWrappers: orig.OneofWrappers}
 			env.miTypes[i] = o.Note
 			op := gen.DefaultOpts()
 			op.MaxDepth = 2
@@ -736,7 +792,7 @@ func (c19) Run(s *scn.Scn, x *sim.Exec) {
 			newMsg := func() proto.Message {
 				return pmsg{mi.MessageOf(reflect.New(mi.GoReflectType.Elem()).Interface())}
 			}
-			return c19MsgOp(strings.TrimPrefix(op.Op, "mi-"), newMsg, env.miWire[obj])
+			return c19MsgOp("mi:"+strings.TrimPrefix(op.Op, "mi-"), newMsg, env.miWire[obj])
 		case "xi-use":
 			if len(env.xis) == 0 {
 				return sim.OpResult{}
